@@ -612,7 +612,10 @@ pub fn run(run: &mut Run) -> Result<(), String> {
                 plan.mid = Some(if q { b(2, 0) } else { b(3, 1) });
                 plan.raws.push((Box::new(Castle { extra: 1 }), b(0, 0)));
                 plan.raws.push((Box::new(EpUniverse::reduced()), b(0, 0)));
+                plan.raws.push((Box::new(DoubleCheck { kings: vec![4, 27], own_kinds: vec![Kind::P, Kind::N] }), b(0, 0)));
+                plan.lines = Some(b(1, 0));
                 if !q {
+                    plan.raws.push((Box::new(TwoLines { enemy_kings: vec![35] }), b(1, 0)));
                     plan.start = Some(b(4, 0));
                     plan.r960 = Some(b(1, 0));
                     plan.raws.push((Box::new(ThreeMen { bk: None }), b(0, 0)));
@@ -625,18 +628,26 @@ pub fn run(run: &mut Run) -> Result<(), String> {
                 plan.r960 = Some(b(1, 0));
                 plan.clock = Some(b(2, 0));
                 plan.dfrc = Some((0..960, 8, b(0, 0)));
+                plan.lines = Some(b(2, 1));
                 plan.raws.push((Box::new(ThreeMen { bk: None }), b(0, 0)));
                 plan.raws.push((Box::new(Castle { extra: 1 }), b(0, 0)));
                 plan.raws.push((Box::new(EpUniverse::reduced()), b(0, 0)));
                 plan.raws.push((Box::new(Checks { n: 2 }), b(0, 0)));
+                plan.raws.push((Box::new(DoubleCheck { kings: vec![4, 27], own_kinds: vec![Kind::P, Kind::N] }), b(0, 0)));
+                plan.raws.push((Box::new(TwoLines { enemy_kings: vec![35] }), b(1, 0)));
             } else {
+                plan.lines = Some(b(3, 2));
+                plan.raws.push((Box::new(DoubleCheck { kings: vec![4, 27, 0, 60], own_kinds: NONKING.to_vec() }), b(0, 0)));
+                plan.raws.push((Box::new(TwoLines { enemy_kings: vec![35, 60, 63] }), b(1, 0)));
                 plan.start = Some(b(4, 2));
                 plan.mid = Some(b(3, 2));
                 plan.r960 = Some(b(2, 1));
                 plan.clock = Some(b(3, 1));
                 plan.dfrc = Some((0..960, 1, b(if prop == "C01" { 1 } else { 0 }, 0)));
                 plan.raws.push((Box::new(ThreeMen { bk: None }), b(1, 1)));
-                plan.raws.push((Box::new(FourMen { kings: None, with_flags: false }), b(0, 0)));
+                // C01 checks one move list per state; C02 checks every outgoing edge (about 12x the
+                // work), so it takes every 10th king placement of the 4-man universe
+                plan.raws.push((Box::new(FourMen { kings: if prop == "C01" { None } else { Some(king_pairs_stride(10)) }, with_flags: false }), b(0, 0)));
                 plan.raws.push((Box::new(Castle { extra: 2 }), b(0, 0)));
                 plan.raws.push((Box::new(EpUniverse::full()), b(1, 0)));
                 plan.raws.push((Box::new(Checks { n: 3 }), b(0, 0)));
@@ -648,10 +659,15 @@ pub fn run(run: &mut Run) -> Result<(), String> {
                 plan.mid = Some(b(2, 1));
                 plan.r960 = Some(b(1, 1));
                 plan.clock = Some(b(2, 1));
+                plan.lines = Some(b(2, 1));
                 plan.raws.push((Box::new(ThreeMen { bk: Some(sub8.clone()) }), b(1, 1)));
                 plan.raws.push((Box::new(Castle { extra: 1 }), b(1, 1)));
                 plan.raws.push((Box::new(EpUniverse::reduced()), b(1, 1)));
+                plan.raws.push((Box::new(TwoLines { enemy_kings: vec![35] }), b(1, 1)));
             } else {
+                plan.lines = Some(b(3, 2));
+                plan.raws.push((Box::new(TwoLines { enemy_kings: vec![35, 60, 63] }), b(1, 1)));
+                plan.raws.push((Box::new(DoubleCheck { kings: vec![4, 27], own_kinds: vec![Kind::P, Kind::N, Kind::R] }), b(1, 0)));
                 plan.start = Some(b(4, 2));
                 plan.mid = Some(b(3, 2));
                 plan.r960 = Some(b(2, 1));
@@ -672,7 +688,12 @@ pub fn run(run: &mut Run) -> Result<(), String> {
                 plan.raws.push((Box::new(Castle { extra: if prop == "C16" { 0 } else { 1 } }), b(0, 0)));
                 plan.raws.push((Box::new(Checks { n: 2 }), b(0, 0)));
                 plan.raws.push((Box::new(EpUniverse::small()), b(0, 0)));
+                plan.raws.push((Box::new(DoubleCheck { kings: vec![4], own_kinds: vec![Kind::P] }), b(0, 0)));
+                plan.lines = Some(b(1, 1));
             } else {
+                plan.lines = Some(b(2, 1));
+                plan.raws.push((Box::new(DoubleCheck { kings: vec![4, 27, 0, 60], own_kinds: NONKING.to_vec() }), b(0, 0)));
+                plan.raws.push((Box::new(TwoLines { enemy_kings: vec![35] }), b(1, 0)));
                 plan.start = Some(b(3, 1));
                 plan.mid = Some(b(2, 1));
                 plan.r960 = Some(b(1, 0));
@@ -692,7 +713,11 @@ pub fn run(run: &mut Run) -> Result<(), String> {
                 plan.raws.push((Box::new(ThreeMen { bk: Some(vec![63]) }), b(0, 0)));
                 plan.raws.push((Box::new(Castle { extra: 0 }), b(0, 0)));
                 plan.raws.push((Box::new(Checks { n: 1 }), b(0, 0)));
+                plan.raws.push((Box::new(DoubleCheck { kings: vec![4], own_kinds: vec![Kind::P] }), b(0, 0)));
+                plan.lines = Some(b(1, 0));
             } else {
+                plan.lines = Some(b(2, 1));
+                plan.raws.push((Box::new(DoubleCheck { kings: vec![4, 27], own_kinds: vec![Kind::P, Kind::N, Kind::R] }), b(0, 0)));
                 plan.start = Some(b(3, 1));
                 plan.mid = Some(b(2, 1));
                 plan.r960 = Some(b(1, 0));
@@ -737,6 +762,55 @@ pub fn run(run: &mut Run) -> Result<(), String> {
         run.assume("2^64 masks are not enumerated: the mask menu is all single squares and their complements, piece-kind sets, own/enemy sets, all pairs of own pieces, and all subsets of the mover's pieces (with and without all irrelevant bits) when the mover has few pieces");
     }
     run_plan(run, &plan, mon.as_ref(), &NoCand);
+    if prop == "C03" && !q {
+        crosscheck(run)?;
+    }
+    Ok(())
+}
+
+/// Thorough tier: (1) the explicit-state search must give the same counters with 1 thread as with
+/// 16; (2) its number of distinct states must equal the `unique_state_count` of the independent
+/// stateright-based explorer (/verif/srx) on the same transition system. A mismatch is a machinery
+/// error (the explorer lost or invented states), never a verdict about the library.
+fn crosscheck(run: &mut Run) -> Result<(), String> {
+    struct Idle;
+    impl Monitor for Idle {}
+    let sets: Vec<(usize, Vec<String>)> = vec![
+        (4, vec!["rnbqkbnr/pppppppp/8/8/8/8/PPPPPPPP/RNBQKBNR w KQkq - 0 1".to_string()]),
+        (3, vec![KIWIPETE.to_string()]),
+        (2, MID_ROOTS.iter().map(|s| s.to_string()).collect()),
+    ];
+    let mut results = Vec::new();
+    for (depth, fens) in sets {
+        let roots = fen_roots(&fens, &run.sink);
+        let bd = Bounds { depth, max_nulls: 0 };
+        let par = bfs(&roots, &bd, &Idle, &run.sink);
+        let pool = rayon::ThreadPoolBuilder::new().num_threads(1).build().map_err(|e| e.to_string())?;
+        let seq = pool.install(|| bfs(&roots, &bd, &Idle, &run.sink));
+        if par.states != seq.states || par.transitions != seq.transitions {
+            return Err(format!("explorer is not deterministic across thread counts: 16 threads {}/{} vs 1 thread {}/{} (states/transitions)", par.states, par.transitions, seq.states, seq.transitions));
+        }
+        let srx = "/verif/target/srx/release/srx";
+        let mut entry = json!({"depth_plies": depth, "roots": roots.len(), "mcx_distinct_states": par.states, "mcx_transitions": par.transitions, "same_with_1_thread": true});
+        if std::path::Path::new(srx).exists() && roots.len() == fens.len() {
+            let out = std::process::Command::new(srx).arg(format!("{}", depth + 1)).args(&fens).output().map_err(|e| format!("cannot run srx: {}", e))?;
+            let txt = String::from_utf8_lossy(&out.stdout).to_string();
+            let unique: Option<u64> = txt.split_whitespace().find_map(|w| w.strip_prefix("unique=").and_then(|x| x.parse().ok()));
+            match unique {
+                Some(u) => {
+                    entry["stateright_unique_state_count"] = json!(u);
+                    if u != par.states {
+                        return Err(format!("state-count cross-check failed: mcx visited {} distinct states, stateright {} (depth {}, {} roots)", par.states, u, depth, roots.len()));
+                    }
+                }
+                None => return Err(format!("srx gave no count: {:?} / {:?}", txt, String::from_utf8_lossy(&out.stderr))),
+            }
+        } else {
+            entry["stateright_unique_state_count"] = json!("not cross-checked (srx binary not built or a root was rejected)");
+        }
+        results.push(entry);
+    }
+    run.extra.insert("explorer_crosscheck".into(), Value::Array(results));
     Ok(())
 }
 
